@@ -9,6 +9,7 @@ import (
 	"go/constant"
 	"go/token"
 	"go/types"
+	"regexp"
 	"sort"
 	"strconv"
 	"strings"
@@ -46,6 +47,7 @@ type senv struct {
 	callerPtrs []string // non-nil when a callee contract is instantiated at a call site: fresh(x) also means distinct from these
 	callerSide bool
 	inQuant    bool
+	upto       int  // >= 0: names are resolved at instruction index upto of block hdr (assert clauses); -1: at a loop header
 	abstract   bool // refinement mode: ghosts that have an abstraction are replaced by their definition
 }
 
@@ -106,6 +108,15 @@ func (t *tr) loopEnv(hdr *ssa.BasicBlock, phiOv map[ssa.Value][]string) *senv {
 	env := t.ownEnv(nil)
 	env.hdr = hdr
 	env.phiOv = phiOv
+	env.upto = -1
+	return env
+}
+
+// pointEnv: names resolve to the values source variables hold just before instruction idx of block b.
+func (t *tr) pointEnv(b *ssa.BasicBlock, idx int) *senv {
+	env := t.ownEnv(nil)
+	env.hdr = b
+	env.upto = idx
 	return env
 }
 
@@ -420,10 +431,13 @@ func (c *evalCtx) resolveLocal(name string) *sv {
 	var bestAlloc *ssa.Alloc
 	var best ssa.Value
 	for _, d := range t.fn.Blocks {
-		if !(d.Dominates(b)) || d == b {
+		if !(d.Dominates(b)) || (d == b && c.env.upto < 0) {
 			continue
 		}
-		for _, ins := range d.Instrs {
+		for k, ins := range d.Instrs {
+			if d == b && k >= c.env.upto {
+				break
+			}
 			switch y := ins.(type) {
 			case *ssa.Alloc:
 				if y.Comment == name {
@@ -432,6 +446,16 @@ func (c *evalCtx) resolveLocal(name string) *sv {
 			case *ssa.DebugRef:
 				if id, ok := y.Expr.(*ast.Ident); ok && id.Name == name && !y.IsAddr {
 					best = y.X
+				}
+			}
+		}
+	}
+	if c.env.upto >= 0 {
+		// at a program point inside block b: phis of b itself by name
+		for _, ins := range b.Instrs {
+			if phi, ok := ins.(*ssa.Phi); ok && phi.Comment == name {
+				if _, defd := t.val[phi]; defd && best == nil {
+					best = phi
 				}
 			}
 		}
@@ -532,9 +556,9 @@ func (c *evalCtx) fieldStep(base *sv, idx int) *sv {
 		if !ok {
 			c.fail("field access through pointer to non-struct")
 		}
-		p := c.rv1(base)
+		p := c.small(c.rv1(base), "Loc")
 		ft := st.Field(idx).Type()
-		return &sv{ty: ft, sort: leafSort(ft), addr: locPlus(p, fieldOffset(st, idx))}
+		return &sv{ty: ft, sort: leafSort(ft), addr: c.t.fieldLoc(p, ty, fieldOffset(st, idx))}
 	}
 	st, ok := ty.Underlying().(*types.Struct)
 	if !ok {
@@ -556,8 +580,8 @@ func (c *evalCtx) index(x *ast.IndexExpr) *sv {
 	}
 	switch u := base.ty.Underlying().(type) {
 	case *types.Slice:
-		s := c.rv1(base)
-		return &sv{ty: u.Elem(), sort: leafSort(u.Elem()), addr: sliceElemLoc(s, idx, stride(u.Elem()))}
+		s := c.small(c.rv1(base), "Slice")
+		return &sv{ty: u.Elem(), sort: leafSort(u.Elem()), addr: sliceElemLoc(s, idx, stride(u.Elem()), c.t.sliceTagConst(base.ty))}
 	case *types.Array:
 		if base.addr != "" && base.terms == nil {
 			return &sv{ty: u.Elem(), sort: leafSort(u.Elem()), addr: locPlusTerm(base.addr, mulConst(idx, stride(u.Elem())))}
@@ -891,6 +915,41 @@ func (c *evalCtx) call(x *ast.CallExpr) *sv {
 			}
 		}
 		c.fail("no range loop %d", k)
+	case "ranged":
+		// ranged() / ranged(k): the slice a range loop iterates over (the current loop, or loop k), which has no name in the
+		// source when it is a call result
+		hb := c.env.hdr
+		if len(args) == 1 {
+			k, err := strconv.Atoi(types.ExprString(args[0]))
+			if err != nil {
+				c.fail("ranged(k) needs a literal loop ordinal")
+			}
+			hb = nil
+			for b, ord := range c.t.loopHdr {
+				if ord == k {
+					hb = b
+				}
+			}
+		}
+		if hb == nil {
+			c.fail("ranged: no such loop")
+		}
+		for _, ins := range hb.Instrs {
+			if bo, ok := ins.(*ssa.BinOp); ok && bo.Op == token.LSS {
+				if call, ok := bo.Y.(*ssa.Call); ok {
+					if bi, ok := call.Call.Value.(*ssa.Builtin); ok && bi.Name() == "len" {
+						x := call.Call.Args[0]
+						if _, defd := c.t.val[x]; defd {
+							return c.t.svOfTerms(c.t.vals(x), x.Type())
+						}
+						if _, isC := x.(*ssa.Const); isC {
+							return c.t.svOfTerms(c.t.vals(x), x.Type())
+						}
+					}
+				}
+			}
+		}
+		c.fail("ranged: loop is not a range over a slice")
 	case "at":
 		// at(r, "pkg/path.T"): the pointer to the object with reference r of allocation type T
 		need(2)
@@ -1022,6 +1081,43 @@ func (c *evalCtx) call(x *ast.CallExpr) *sv {
 			return boolSV("true")
 		}
 		return boolSV("(and " + strings.Join(conj, " ") + ")")
+	case "sametype":
+		// sametype(p): every object of p's allocation type other than p itself is as in the pre-state
+		need(1)
+		v := c.eval(args[0])
+		pt, ok := v.ty.Underlying().(*types.Pointer)
+		if !ok {
+			c.fail("sametype needs a pointer")
+		}
+		p := c.rv1(v)
+		tag := c.t.eng.tag(pt.Elem())
+		var conj []string
+		for _, ls := range uniq(leaves(pt.Elem())) {
+			h := "H_" + ls
+			// quantifier-free: the type's object table is the old one with p's row replaced
+			conj = append(conj, fmt.Sprintf("(= (select %s %d) (store (select %s %d) (lref %s) (select (select %s %d) (lref %s))))", c.t.H(c.cur, h), tag, c.t.H(c.old, h), tag, p, c.t.H(c.cur, h), tag, p))
+		}
+		return boolSV("(and " + strings.Join(conj, " ") + ")")
+	case "unchangedtypes":
+		// unchangedtypes("T1", "[]*T2", ...): every object of these allocation types is as in the pre-state
+		var conj []string
+		for _, a := range args {
+			ty := c.typeOfArg(a)
+			tag := c.t.eng.tag(ty)
+			content := ty
+			if st, ok := ty.Underlying().(*types.Slice); ok {
+				tag = c.t.eng.sliceTag(ty)
+				content = st.Elem()
+			}
+			for _, ls := range uniq(leaves(content)) {
+				h := "H_" + ls
+				conj = append(conj, fmt.Sprintf("(= (select %s %d) (select %s %d))", c.t.H(c.cur, h), tag, c.t.H(c.old, h), tag))
+			}
+		}
+		if len(conj) == 0 {
+			return boolSV("true")
+		}
+		return boolSV("(and " + strings.Join(conj, " ") + ")")
 	case "sameheap":
 		// sameheap("sort"): the whole component heap of that sort is as in the pre-state
 		need(1)
@@ -1116,6 +1212,9 @@ func (c *evalCtx) call(x *ast.CallExpr) *sv {
 		if c.env.depth > 20 {
 			c.fail("predicate recursion too deep")
 		}
+		if c.t.opaquePreds[name] && c.t.dryRun == 0 {
+			return c.opaquePred(name, p, args)
+		}
 		ne := &senv{t: c.t, vars: map[string]*sv{}, lets: map[string]ast.Expr{}, depth: c.env.depth + 1, callerSide: c.env.callerSide, callerPtrs: c.env.callerPtrs, inQuant: c.env.inQuant, abstract: c.env.abstract}
 		ne.pkg = c.env.pkg
 		if p.Pkg != "" {
@@ -1130,7 +1229,8 @@ func (c *evalCtx) call(x *ast.CallExpr) *sv {
 		}
 		nc := *c
 		nc.env = ne
-		return nc.eval(p.Body)
+		res := nc.eval(p.Body)
+		return c.nameBool(name, res)
 	}
 	c.fail("unknown spec function %q", name)
 	return nil
@@ -1300,6 +1400,9 @@ func (c *evalCtx) quant(kind string, args []ast.Expr) *sv {
 				s := c.rv1(base)
 				off, el = "(soff "+s+")", u.Elem()
 				obj = fmt.Sprintf("(styp %s)) (sref %s)", s, s)
+				if tc := c.t.sliceTagConst(base.ty); tc != "" {
+					obj = fmt.Sprintf("%s) (sref %s)", tc, s)
+				}
 			case *types.Array:
 				if base.addr == "" || base.terms != nil {
 					return
@@ -1359,6 +1462,8 @@ func (c *evalCtx) quant(kind string, args []ast.Expr) *sv {
 	} else {
 		q = fmt.Sprintf("(and %s %s)", rangeC, body)
 	}
+	c.t.nfresh++
+	q = cseLet(q, fmt.Sprintf("cs%d", c.t.nfresh))
 	if pat != "" {
 		var ps strings.Builder
 		for _, p := range strings.Split(pat, "\x00") {
@@ -1534,6 +1639,7 @@ func (c *evalCtx) quantV(kind string, args []ast.Expr) *sv {
 			ty = types.Typ[types.Bool]
 		}
 		ne.vars[p[0]] = &sv{sort: sort, terms: []string{qv}, ty: ty}
+		c.t.qsort[qv] = smtSort(sort)
 		binders = append(binders, fmt.Sprintf("(%s %s)", qv, smtSort(sort)))
 	}
 	body := nc.rv1(nc.eval(args[1]))
@@ -1550,4 +1656,104 @@ func (c *evalCtx) quantV(kind string, args []ast.Expr) *sv {
 		return boolSV(fmt.Sprintf("(%s (%s) (! %s :pattern (%s)))", q, strings.Join(binders, " "), body, strings.Join(pats, " ")))
 	}
 	return boolSV(fmt.Sprintf("(%s (%s) %s)", q, strings.Join(binders, " "), body))
+}
+
+var reQVar = regexp.MustCompile(`\bq[0-9]+_[A-Za-z0-9_]+\b`)
+var reQBinder = regexp.MustCompile(`\((q[0-9]+_[A-Za-z0-9_]+) (?:Int|BSeq|GStr|Bool|Iface|Loc|Slice|F64|F32)\)`)
+
+// nameBool abbreviates a large boolean term produced by a predicate: a named constant (or, when it mentions bound
+// variables, a function of them) defined once at the current point of the script. Keeps scripts linear in the number
+// of predicate uses instead of exponential in their nesting depth.
+func (c *evalCtx) nameBool(pred string, v *sv) *sv {
+	if v.sort != "bool" || len(v.terms) != 1 || len(v.terms[0]) < 400 || c.t.dryRun > 0 {
+		return v
+	}
+	body := v.terms[0]
+	if d, ok := c.t.predDefs[body]; ok {
+		return boolSV(d)
+	}
+	var vars []string
+	seen := map[string]bool{}
+	// names bound by a quantifier inside the body are not free (every binder has a unique name)
+	for _, m := range reQBinder.FindAllStringSubmatch(body, -1) {
+		seen[m[1]] = true
+	}
+	for _, m := range reQVar.FindAllString(body, -1) {
+		if !seen[m] {
+			seen[m] = true
+			vars = append(vars, m)
+		}
+	}
+	if len(vars) > 0 {
+		return v
+	}
+	c.t.nfresh++
+	n := fmt.Sprintf("pd_%s_%s%d", sanitize(pred), c.t.pfx, c.t.nfresh)
+	if len(vars) == 0 {
+		fmt.Fprintf(&c.t.decls, "(declare-const %s Bool)\n", n)
+		fmt.Fprintf(&c.t.out, "(assert (= %s %s))\n", n, body)
+		c.t.predDefs[body] = n
+		return boolSV(n)
+	}
+	var sorts, binders []string
+	for _, x := range vars {
+		so := c.t.qsort[x]
+		if so == "" {
+			so = "Int"
+		}
+		sorts = append(sorts, so)
+		binders = append(binders, fmt.Sprintf("(%s %s)", x, so))
+	}
+	app := fmt.Sprintf("(%s %s)", n, strings.Join(vars, " "))
+	fmt.Fprintf(&c.t.decls, "(declare-fun %s (%s) Bool)\n", n, strings.Join(sorts, " "))
+	fmt.Fprintf(&c.t.out, "(assert (forall (%s) (! (= %s %s) :pattern (%s))))\n", strings.Join(binders, " "), app, body, app)
+	c.t.predDefs[body] = app
+	return boolSV(app)
+}
+
+// small abbreviates a large term (typically a pointer reached through several loads) by a named constant, or by a
+// function of the quantifier variables it mentions, defined at the current point of the script.
+func (c *evalCtx) small(term, sort string) string {
+	if len(term) < 160 || c.t.dryRun > 0 {
+		return term
+	}
+	if d, ok := c.t.predDefs["T:"+term]; ok {
+		return d
+	}
+	var vars []string
+	seen := map[string]bool{}
+	for _, m := range reQBinder.FindAllStringSubmatch(term, -1) {
+		seen[m[1]] = true
+	}
+	for _, m := range reQVar.FindAllString(term, -1) {
+		if !seen[m] {
+			seen[m] = true
+			vars = append(vars, m)
+		}
+	}
+	if len(vars) > 0 {
+		return term // under a binder: stays a plain term (function definitions with axioms proved too fragile for matching)
+	}
+	c.t.nfresh++
+	n := fmt.Sprintf("tm_%s%d", c.t.pfx, c.t.nfresh)
+	if len(vars) == 0 {
+		fmt.Fprintf(&c.t.decls, "(declare-const %s %s)\n", n, sort)
+		fmt.Fprintf(&c.t.out, "(assert (= %s %s))\n", n, term)
+		c.t.predDefs["T:"+term] = n
+		return n
+	}
+	var sorts, binders []string
+	for _, x := range vars {
+		so := c.t.qsort[x]
+		if so == "" {
+			so = "Int"
+		}
+		sorts = append(sorts, so)
+		binders = append(binders, fmt.Sprintf("(%s %s)", x, so))
+	}
+	app := fmt.Sprintf("(%s %s)", n, strings.Join(vars, " "))
+	fmt.Fprintf(&c.t.decls, "(declare-fun %s (%s) %s)\n", n, strings.Join(sorts, " "), sort)
+	fmt.Fprintf(&c.t.out, "(assert (forall (%s) (! (= %s %s) :pattern (%s))))\n", strings.Join(binders, " "), app, term, app)
+	c.t.predDefs["T:"+term] = app
+	return app
 }
